@@ -805,6 +805,12 @@ namespace vf
         if(!(nrm < 1e-2L)) return;
         if(!gj_inverse(N, Minv, Mhat)) VF_FAIL("mismatch:ilu probe: M^-1 obtained from unit vectors is singular");
         for(int i = 0; i < N; ++i) for(int q = 0; q < N; ++q) { LD m = ME[(size_t)(i * N + q)]; if(m == 0) continue; for(int j = 0; j < N; ++j) T2[(size_t)(i * N + j)] += m * fabsl(Mref[(size_t)(q * N + j)]); }
+        // higher-order terms of (Minv + E)^-1 = M - M E M + M E M E M - ...: with Y = (|M|E) T2 and rho = || |M|E ||_inf
+        // sum_{k>=2} ((|M|E)^(k-1) T2)_ij <= Y_ij + rho/(1-rho) max_q Y_qj
+        std::vector<LD> Y((size_t)(N * N), 0.0L), Ycol((size_t)N, 0.0L);
+        for(int i = 0; i < N; ++i) for(int q = 0; q < N; ++q) { LD m = ME[(size_t)(i * N + q)]; if(m == 0) continue; for(int j = 0; j < N; ++j) Y[(size_t)(i * N + j)] += m * T2[(size_t)(q * N + j)]; }
+        for(int i = 0; i < N; ++i) for(int j = 0; j < N; ++j) Ycol[(size_t)j] = std::max(Ycol[(size_t)j], Y[(size_t)(i * N + j)]);
+        for(int i = 0; i < N; ++i) for(int j = 0; j < N; ++j) T2[(size_t)(i * N + j)] += Y[(size_t)(i * N + j)] + nrm / (1 - nrm) * Ycol[(size_t)j];
         // forward error of the long-double inversion itself: |dX| <= c N u_ld (|X| |Minv| |X|)  (matters for ill-conditioned M)
         std::vector<LD> XA((size_t)(N * N), 0.0L), T3((size_t)(N * N), 0.0L); const LD uld = std::numeric_limits<LD>::epsilon();
         for(int i = 0; i < N; ++i) for(int q = 0; q < N; ++q) { LD m = fabsl(Mhat[(size_t)(i * N + q)]); if(m == 0) continue; for(int j = 0; j < N; ++j) XA[(size_t)(i * N + j)] += m * fabsl(Minv[(size_t)(q * N + j)]); }
